@@ -453,13 +453,12 @@ func RunParent(id, tier string) int {
 		return 2
 	}
 	pc.Known = kf
-	scratch, err := os.MkdirTemp("", "vcheck-"+id+"-")
+	scratch, cleanup, err := SetupChildEnv("vcheck-" + id + "-")
 	if err != nil {
-		fmt.Printf("INCONCLUSIVE property=%s reason=no-scratch\n", id)
+		fmt.Printf("INCONCLUSIVE property=%s reason=no-scratch:%v\n", id, err)
 		return 2
 	}
-	defer os.RemoveAll(scratch)
-	_ = os.Chmod(scratch, 0o755)
+	defer cleanup()
 	pc.Scratch = scratch
 	merged := NewShardResult()
 	pc.Merged = merged
@@ -731,6 +730,14 @@ func RunReplay(path string) int {
 	if r.Case < 0 {
 		fmt.Printf("replay: violation %s was found by the parent stage; re-run `run.sh %s %s` with VERIF_SEED=%d\n", r.Sig, r.Property, r.Tier, r.Seed)
 		return 2
+	}
+	if os.Getenv("VCHECK_SCRATCH") == "" {
+		_, cleanup, err := SetupChildEnv("vreplay-")
+		if err != nil {
+			fmt.Println("replay: no scratch directory:", err)
+			return 2
+		}
+		defer cleanup()
 	}
 	out := filepath.Join(os.TempDir(), fmt.Sprintf("vreplay-%d.json", os.Getpid()))
 	defer os.Remove(out)
